@@ -148,6 +148,10 @@ def ct_check_cbc_mac_and_pad(data, mac, seqnumBytes, contentType, version,
     pad_start = data_len - pad_length - 1
     pad_start = max(0, pad_start)
 
+    # the padding, its length byte and the MAC must all fit in the data
+    result |= ct_lsb_prop_u8(ct_lt_u32(data_len,
+                                       pad_length + 1 + mac.digest_size))
+
     if version == (3, 0): # version is public
         # in SSLv3 we can only check if pad is not longer than the cipher
         # block size
